@@ -13,7 +13,14 @@ cfgdump --calls; functions defined under /repo/mfront, headers included):
  R3 no stream insertion of a pointer value (other than character pointers);
  R4 getenv only at the enumerated sites (function, variable), each with the
     reason why the output depends on it by documented design;
- R5 no __DATE__ / __TIME__ / __TIMESTAMP__ in the generator's sources.
+ R5 no __DATE__ / __TIME__ / __TIMESTAMP__ in the generator's sources;
+ R6 file-status primitives (stat family, access, std::filesystem queries, directory
+    listings) only in the enumerated functions, and the existence helper
+    fileExistsAndIsReadable only from the input search-path code: nothing may
+    decide what to generate from what previous runs left behind;
+ R7 files are opened for reading only in the enumerated functions (inputs,
+    installed documentation, and the two documented aggregates targets.lst /
+    excel.lst).
 String literals emitted *into* generated code (e.g. 'time(0)' in generated
 Runge-Kutta code) are not calls of the generator and are not matched.
 """
@@ -50,7 +57,31 @@ GETENV = {
     ("mfront::CastemInterface::getTargetsDescription", "CASTEM_ROOT"): "build-system driver: Cast3M installation",
     ("mfront::CastemModelInterface::getTargetsDescription", "CASTEM_ROOT"): "build-system driver: Cast3M installation",
 }
-TOKENS = re.compile(r"(\btime\s*\(|\bclock\s*\(|chrono|\brand\s*\(|random|getpid|getppid|tmpnam|mkstemp|tempnam|tmpfile|mkdtemp|getenv|"
+# R6: primitives that read the *status* of the file system (existence, type, times, directory listings)
+STATUS = re.compile(r"^(::)?(stat|lstat|fstat|fstatat|stat64|lstat64|access|faccessat|euidaccess|opendir|fdopendir|readdir|readdir_r|scandir|glob|ftw|nftw|"
+                    r"utime|utimes|futimens|utimensat|std::filesystem::(exists|is_[a-z_]+|status|symlink_status|last_write_time|file_size|"
+                    r"hard_link_count|equivalent|space|read_symlink|directory_iterator::directory_iterator|"
+                    r"recursive_directory_iterator::recursive_directory_iterator|directory_entry::[a-z_]+))$")
+STATUS_SITES = {
+    "mfront::fileExistsAndIsReadable": "locates *input* files on the search paths (callers enumerated below); never looks at generated files",
+    "mfront::ExcelMaterialPropertyInterface::writeOutputFiles": "aggregate index src/excel.lst accumulated across runs by design (same nature as src/targets.lst); not a source generated for one input",
+    "mfront::MFrontDatabase::analyseDirectory": "mfront-query database: lists the libraries of a directory named by the caller; emits no sources",
+}
+HELPER_CALLERS = {"mfront::fileExistsAndIsReadable": {"mfront::SearchPathsHandler::search", "mfront::SearchPathsHandler::searchMadnexFile"}}
+# R7: who opens a file for reading (std::ifstream / std::fstream / fopen) in the generator
+READERS = {
+    "mfront::MFront::analyseTargetsFile": "src/targets.lst: the documented aggregate of all runs in the directory (excluded from the property)",
+    "mfront::ExcelMaterialPropertyInterface::writeOutputFiles": "src/excel.lst aggregate (see above)",
+    "mfront::MFront::treatHelpCommands": "--help-keyword: prints installed documentation",
+    "mfront::displayHelpFile": "prints installed documentation",
+    "mfront::getDocumentationFilePath": "probes installed documentation files",
+    "mfront::readConfigurationFile": "reads an *input* configuration file named on the command line",
+    "mfront::write": "OverridableImplementation: copies the *input* file being overridden",
+}
+READ_OPEN = re.compile(r"^(std::basic_ifstream<.*>::(basic_ifstream|open)|std::basic_fstream<.*>::(basic_fstream|open)|std::basic_filebuf<.*>::open|"
+                       r"(::)?fopen|(::)?freopen|(::)?open|(::)?openat)$")
+RUNTIME_TARGETS = {"MFrontProfiling": "run-time profiler linked into generated behaviours (timers are its purpose); emits nothing at generation time"}
+TOKENS = re.compile(r"(\bstat\s*\(|\blstat\s*\(|\baccess\s*\(|std::filesystem|opendir|readdir|\bifstream|\bfstream\b|\bfopen\s*\(|fileExistsAndIsReadable|\btime\s*\(|\bclock\s*\(|chrono|\brand\s*\(|random|getpid|getppid|tmpnam|mkstemp|tempnam|tmpfile|mkdtemp|getenv|"
                     r"unordered_|__DATE__|__TIME__|__TIMESTAMP__|this_thread|localtime|gmtime|gettimeofday|strftime|drand48)")
 MACROS = re.compile(r"\b(__DATE__|__TIME__|__TIMESTAMP__)\b")
 
@@ -63,6 +94,7 @@ def strip_literals(txt):
     """drop string literals and comments (emitted text is not generator behaviour)."""
     txt = re.sub(r'"(\\.|[^"\\\n])*"', '""', txt)
     txt = re.sub(r"//[^\n]*", "", txt)
+    txt = re.sub(r"(?m)^\s*#\s*include[^\n]*", "", txt)
     txt = re.sub(r"/\*.*?\*/", "", txt, flags=re.S)
     return txt
 
@@ -97,6 +129,27 @@ def scan(rep, dumps, control=False):
                     else:
                         fail("GETENV@%s#%s" % (q, key[1]), "%s: %s reads the environment variable %s, which is not in the table of "
                              "documented inputs of the generator" % (rel(c["l"]), q, key[1] or "<computed>"))
+                if STATUS.match(cal):
+                    if not control:
+                        rep.count("file-status call sites")
+                    if q in STATUS_SITES:
+                        if not control:
+                            rep.ok("%s in %s: %s" % (cal, q, STATUS_SITES[q]), sample=False)
+                    else:
+                        fail("FILE-STATUS@%s#%s" % (q, cal), "%s: %s calls %s: what the generator does depends on what earlier runs (or anything "
+                             "else) left in the file system, and this site is not in the table of accepted status reads" % (rel(c["l"]), q, cal))
+                if cal in HELPER_CALLERS and q not in HELPER_CALLERS[cal]:
+                    fail("FILE-STATUS@%s#%s" % (q, cal), "%s: %s calls the file-existence helper %s (accepted callers: %s)"
+                         % (rel(c["l"]), q, cal, sorted(HELPER_CALLERS[cal])))
+                if READ_OPEN.match(cal) and not (c.get("ctor") and cal.endswith("open")):
+                    if not control:
+                        rep.count("file-reading open sites")
+                    if q in READERS:
+                        if not control:
+                            rep.ok("%s reads a file: %s" % (q, READERS[q]), sample=False)
+                    else:
+                        fail("FILE-READ@%s" % q, "%s: %s opens a file for reading (%s) and is not in the table of accepted readers: generated "
+                             "output may depend on files left by previous runs" % (rel(c["l"]), q, cal.split("<")[0]))
                 if "ins" in c:
                     t = c["ins"]
                     if t.rstrip().endswith("*") and not re.search(r"\b(char|wchar_t|char8_t)\b", t) and "std::basic_ostream" not in t \
@@ -115,7 +168,12 @@ def scan(rep, dumps, control=False):
 
 def run(tier):
     rep = Report("C36", tier, "other", RULE)
-    units = units_under("mfront/src")
+    allu = units_under("mfront/src")
+    # the generator = libTFELMFront + the mfront executable (+ its log-stream library); run-time support libraries that
+    # are compiled from the same directory but linked into *generated* code are not the generator
+    units = [u for u in allu if unit_target(u) not in RUNTIME_TARGETS]
+    rep.extra["targets"] = sorted(set(unit_target(u) or "?" for u in units))
+    rep.extra["excluded_runtime_units"] = [rel(u) for u in allu if unit_target(u) in RUNTIME_TARGETS]
     # R5 + pre-filter on the sources as compiled (literals and comments removed)
     hdr = []
     for root in ("mfront/include",):
@@ -148,13 +206,13 @@ def run(tier):
     # positive control
     ctl = os.path.join(VERIF, "controls", "C36_control.cxx")
     dc = cfgdump([ctl], os.path.join(OUT, "C36", "ctl"), calls=True, flags_for=lambda u: (header_flags(), VERIF))
-    if scan(rep, dc, control=True) < 5:
-        raise AnalysisBroken("positive control: fewer than 5 reports on controls/C36_control.cxx")
+    if scan(rep, dc, control=True) < 8:
+        raise AnalysisBroken("positive control: fewer than 8 reports on controls/C36_control.cxx")
     if not rep.violations:
         rep.ok("no nondeterminism source among %d resolved call sites of %d units" % (rep.analysed.get("resolved call sites", 0), len(sel)))
     rep.floor("getenv call sites", 10)
     rep.floor("resolved call sites", 20000 if tier == "thorough" else 5000)
     rep.assumptions += ["units = what /repo/_build compiles (interfaces disabled at configuration time are not covered)",
-                        "dependence on files left by previous runs other than src/targets.lst is not decided",
+                        "files are read through the tokenizer (tfel::utilities::CxxTokenizer, outside the generator units) only for inputs: not checked",
                         "std::map/std::set keyed by pointers are not searched for"]
     return rep
